@@ -21,12 +21,19 @@ template<class A> static void tostring_cases(const typename A::Uri&u,const std::
   g.count(origin+val+std::to_string(A::W),L>0);
 }
 
+template<class A> static void tostring_text(const Text&t,int variant,Guarded&ar,long&n){
+  auto h=parse_holder<A>(t); if(!h->ok) return;
+  if(variant==0) tostring_cases<A>(h->uri,"parsed",ar,n);
+  else if(variant==1){ if(A::NormalizeSyntax(&h->uri)==URI_SUCCESS) tostring_cases<A>(h->uri,"normalized",ar,n); }
+  else { auto b=parse_holder<A>(T("s://bh:9/x/y?bq")); typename A::Uri d; if(A::AddBaseUri(&d,&h->uri,&b->uri)==URI_SUCCESS){ tostring_cases<A>(d,"resolved",ar,n); } A::FreeUriMembers(&d); } }
+
 VH_DRIVER(tostring){
   if(!RT.load(arg_value(argc,argv,"--table","build/recognizer.tbl"))) return 2;
   long want=atol(arg_value(argc,argv,"--n",g.thorough?"6000":"260")); Rng R(g.seed); Guarded ar(1<<16); long n=0;
   std::vector<Text> texts=corpus_uris(R,g.thorough,(size_t)want);
   for(const char*s:{"//[::1]","//[1:2:3:4:5:6:7:8]:1","s://u@[::ffff:1.2.3.4]:80/p?q#f","//255.255.255.255","//0.10.100.9:","s://u:p@h:1/a/b?q#f","//[v1.a]","","/","#","?"}) texts.push_back(T(s));
   for(size_t i=0;i<texts.size();++i){ const Text&t=texts[i];
+    if(g.pair){ int variant=(int)(i%3); long na=0,nw=0; AW(true,true,[&]{ tostring_text<ApiA>(t,variant,ar,na); },[&]{ tostring_text<ApiW>(t,variant,ar,nw); }); n+=na; continue; }
     { auto h=parse_holder<ApiA>(t); if(h->ok){ tostring_cases<ApiA>(h->uri,"parsed",ar,n);
         if(i%3==0){ if(ApiA::NormalizeSyntax(&h->uri)==URI_SUCCESS) tostring_cases<ApiA>(h->uri,"normalized",ar,n); }
         if(i%3==1){ auto b=parse_holder<ApiA>(T("s://bh:9/x/y?bq")); ApiA::Uri d; if(ApiA::AddBaseUri(&d,&h->uri,&b->uri)==URI_SUCCESS){ tostring_cases<ApiA>(d,"resolved",ar,n); } ApiA::FreeUriMembers(&d); } } }
